@@ -107,6 +107,20 @@ def gen(seed, tier="quick"):
     if tf / ldt0 > 1500:
         ldt0 = tf / 1500
     pnames.append(("logger/dt", "f8"))
+    # round 7: the logger's own period as a derived parameter (the logger is the last follower, so a
+    # broadcast that resumes with an older snapshot reverts it there), and followers that take the
+    # values from the message they are handed instead of asking the core
+    par2 = stream(seed, "params2")
+    for nd in nodes:
+        if nd["follows"] and "derive" not in nd and f8 and par2.random() < 0.3 and "logger/dt" not in used_dst:
+            src = par2.choice(f8)
+            if src in used_dst:
+                continue
+            used_src.add(src)
+            used_dst.add("logger/dt")
+            nd["derive"] = {"src": src, "dst": "logger/dt", "gain": 1.0, "map": "period", "base": ldt0}
+    for nd in nodes:
+        nd["reads_msg"] = nd["follows"] and par2.random() < 0.4
 
     # candidate op times: exact ties with logger ticks (same float accumulation as the
     # logger), sub-period offsets around them, a coarse grid shared between actors
@@ -242,6 +256,13 @@ class BusModel:
         self.has_pub = set()  # topics whose publisher exists (nested publications need one)
         self.rules = []  # derived parameters: {"node", "src", "dst", "gain", "seen"}
 
+    @staticmethod
+    def derived_value(rule, cur):
+        if rule.get("map") == "period":
+            a = abs(float(cur))
+            return rule["base"] * (1.0 + (a % 3.0)) if a == a and a != float("inf") else rule["base"]
+        return rule["gain"] * float(cur)
+
     def add_topic(self, topic, tname):
         self.types[topic] = tname
 
@@ -260,7 +281,7 @@ class BusModel:
             key = _np.array(cur).tobytes()
             if key != r["seen"]:
                 r["seen"] = key
-                self.params[r["dst"]] = (r["gain"] * float(cur), self.params[r["dst"]][1])
+                self.params[r["dst"]] = (self.derived_value(r, cur), self.params[r["dst"]][1])
 
     def next_serial(self):
         self.serial += 1
@@ -483,15 +504,18 @@ def run(scn):
             rec.rec(core.now, "pcb", self.spec["name"])
             for p in self.param_list:
                 p.update()
+            if self.spec.get("reads_msg"):
+                # the other idiom of following the topic: take the values from the message handed over
+                self.msg_vals = {p.name: np.array(msg.data[p.name]).tobytes() for p in self.param_list}
             d = self.spec.get("derive")
-            if d and d["src"] in declared and d["dst"] in declared:
+            if d and d["src"] in declared and (d["dst"] in declared or d["dst"] == "logger/dt"):
                 v = core.get_param(d["src"])
                 key = np.array(v).tobytes()
                 if key != self.seen_src:
                     # a derived parameter: set from inside the parameter callback (nested broadcast)
                     self.seen_src = key
                     fault("reentrant_set_param")
-                    core.set_param(d["dst"], d["gain"] * float(v))
+                    core.set_param(d["dst"], BusModel.derived_value(d, v))
 
     declared = {p["name"]: p["dtype"] for n in scn["nodes"] for p in n["params"]}
     pnodes = [PNode(n) for n in scn["nodes"]]
@@ -500,8 +524,8 @@ def run(scn):
             model.params[p["name"]] = (p["value"], p["dtype"])
     for n in scn["nodes"]:
         d = n.get("derive")
-        if d and n["follows"] and d["src"] in declared and d["dst"] in declared:
-            model.rules.append({"node": n["name"], "src": d["src"], "dst": d["dst"], "gain": d["gain"], "seen": None})
+        if d and n["follows"] and d["src"] in declared and (d["dst"] in declared or d["dst"] == "logger/dt"):
+            model.rules.append(dict(d, node=n["name"], seen=None))
 
     logger = uros.Logger(core)
     model.params["logger/dt"] = (1.0 / 200, "f8")
@@ -556,6 +580,13 @@ def run(scn):
                 if not same:
                     violation("param_not_seen", "Core.set_param/Param.update",
                               "%s: follower %s reads %r, core was set to %r" % (where, p.name, got, exp), name=p.name)
+            if pn.spec.get("reads_msg") and getattr(pn, "msg_vals", None) is not None:
+                for p in pn.param_list:
+                    counters["param_msg_checks"] = counters.get("param_msg_checks", 0) + 1
+                    exp = model_coerce(p.name)
+                    if pn.msg_vals[p.name] != np.array(exp).tobytes():
+                        violation("param_not_seen", "Core.set_param/params message",
+                                  "%s: the last parameter message handed to follower %s carries %s = %r, core was set to %r" % (where, pn.spec["name"], p.name, np.frombuffer(pn.msg_vals[p.name], dtype=np.array(exp).dtype)[0], exp), name=p.name)
         exp = model_coerce("logger/dt")
         if np.array(logger.dt.get()).tobytes() != np.array(exp).tobytes():
             violation("param_not_seen", "Logger.callback", "%s: logger/dt reads %r, core was set to %r" % (where, logger.dt.get(), exp), name="logger/dt")
